@@ -151,6 +151,7 @@ class BuiltinsMixin:
             if prev is not None:
                 st.assume(now >= prev)
             st.ghost["$now"] = now
+            st.ghost["now"] = SV(mk_real(now), Ty("float"))
             self.assumptions.add("time.time() returns a non-decreasing real")
             return SV(mk_real(now), Ty("float"))
         if name == "math.isclose":
@@ -345,6 +346,8 @@ class BuiltinsMixin:
             out = H.list_new(st, None, d[2][1], ty=Ty("list", (d[4],) if d[4] else ()))
             st.write("$items", H.rid(out), d[2][0])
             return out
+        if d[0] == "dictitems" and d[1] == "items":
+            return self.materialize_items(d)
         if d[0] == "dictitems":
             n = self.iter_len(d)
             out = H.list_new(st, None, n, ty=Ty("list"))
@@ -365,6 +368,32 @@ class BuiltinsMixin:
         n = self.iter_len(d)
         out = H.list_new(st, None, n, ty=Ty("list"))
         out.meta = ("lazyiter", d)
+        return out
+
+    def materialize_items(self, d) -> SV:
+        """list(dict.items()): a fresh list of n fresh 2-tuples (a block of n consecutive new references)"""
+        st = self.st
+        (ordr, cnt), dval, kty, vty = d[2], d[3], d[4], d[5]
+        out = H.list_new(st, None, cnt, ty=Ty("list", (Ty("tuple", (kty or Ty("any"), vty or Ty("any"))),)))
+        o = H.rid(out)
+        base = st.alloc
+        old_items, old_len = st.field("$items"), st.field("$len")
+        new_items = st.fresh("H!$items", old_items.sort())
+        new_len = st.fresh("H!$len", old_len.sort())
+        r, j = z3.Int("mi!r"), z3.Int("mi!j")
+        st.assume(z3.ForAll([r], z3.Implies(r < base, z3.And(z3.Select(new_items, r) == z3.Select(old_items, r),
+                                                             z3.Select(new_len, r) == z3.Select(old_len, r)))))
+        st.heap["$items"], st.heap["$len"] = new_items, new_len
+        tup = lambda jj: base + jj
+        st.assume(z3.ForAll([j], z3.Implies(z3.And(0 <= j, j < cnt), z3.And(
+            z3.Select(z3.Select(new_items, o), j) == mk_ref(tup(j)),
+            z3.Select(new_len, tup(j)) == 2,
+            z3.Select(z3.Select(new_items, tup(j)), 0) == z3.Select(ordr, j),
+            z3.Select(z3.Select(new_items, tup(j)), 1) == z3.Select(dval, z3.Select(ordr, j))))))
+        na = st.fresh("alloc", INT)
+        st.assume(na == base + cnt)
+        st.alloc = na
+        self.assumptions.add("list(d.items()) modelled as a block of fresh 2-tuples in dict order")
         return out
 
     def dict_copy(self, d: SV) -> SV:
